@@ -13,6 +13,8 @@
    out; for the SMC kinds an undefined (NaN) value is mapped to MinusInf.  *)
 EXTENDS Integers, FiniteSets, Sequences, SequencesExt, Json, IOUtils, TLC
 
+VARIABLE cur      \* the case under examination (one TLC state per case)
+
 CONSTANTS Vals,      \* finite integer values
           Js,        \* beta numerators (eighths)
           Jacs,      \* log-Jacobian values
@@ -53,18 +55,17 @@ Thin(SS) == IF Cardinality(SS) <= MaxCases THEN SS
 Cases == Thin(All)
 
 (* C05 laws on the reference *)
-ZeroPriorMinusInf == \A c \in All : c.p = MinusInf => c.expect = MinusInf
-NanToMinusInf == \A c \in SmcCases : c.expect # NaN
+ZeroPriorMinusInf == \A c \in {cur} : c.p = MinusInf => c.expect = MinusInf
+NanToMinusInf == \A c \in {x \in {cur} : x.kind = "smc"} : c.expect # NaN
 FiniteIffAllFinite ==
-  \A c \in SmcCases : IsFin(c.expect) <=> (IsFin(c.l) /\ IsFin(c.p) /\ (IsFin(c.q) \/ (c.q = MinusInf /\ FALSE)))
-TargetDef == \A c \in SmcCases : (IsFin(c.q) /\ IsFin(c.l) /\ IsFin(c.p)) =>
+  \A c \in {x \in {cur} : x.kind = "smc"} : IsFin(c.expect) <=> (IsFin(c.l) /\ IsFin(c.p) /\ (IsFin(c.q) \/ (c.q = MinusInf /\ FALSE)))
+TargetDef == \A c \in {x \in {cur} : x.kind = "smc"} : (IsFin(c.q) /\ IsFin(c.l) /\ IsFin(c.p)) =>
                 c.expect = (8 - c.j) * c.q + c.j * (c.l + c.p) + 8 * c.jac
-ASSUME ZeroPriorMinusInf /\ NanToMinusInf /\ FiniteIffAllFinite /\ TargetDef
 ASSUME PrintT(<<"NCASES", Cardinality(Cases)>>)
 ASSUME JsonSerialize(IOEnv.OUT_FILE, SetToSeq(Cases))
 
-VARIABLE dummy
-Init == dummy = 0
-Next == UNCHANGED dummy
-Spec == Init /\ [][Next]_dummy
+\* one TLC state per case: the laws are state invariants evaluated on every case
+Init == cur \in Cases
+Next == UNCHANGED cur
+Spec == Init /\ [][Next]_cur
 =============================================================================
